@@ -115,13 +115,13 @@ def SetOut (inp : List UInt8) (G : Prop) (n : Option Nat) (xs : List Rec) (its :
   (∃ (ys : List FqRec) (e : FqErr) (b l : Nat), res.2.2 = .err (specErr e) ∧
       its = ys.map FqItem.record ++ [.err e b l] ∧ res.2.1.positions = [] ∧ Fin inp G res.1 ∧
       (∀ n', n = some n' → xs.length + ys.length < n')) ∨
-  (res.2.2 = .err .bufferLimit ∧ ¬ G ∧ res.2.1.positions = [] ∧ Fin inp G res.1)
+  (∃ e, res.2.2 = .err e ∧ EnvErr e ∧ ¬ G ∧ res.2.1.positions = [] ∧ Fin inp G res.1)
 
 theorem SetOut.cons {inp G n xs x its' res}
     (h : SetOut inp G n (xs ++ [recOf x]) its' res) :
     SetOut inp G n xs (.record x :: its') res := by
   rcases h with ⟨hr, ys, its'', hi, hv, hl, hne, hc⟩ | ⟨hr, hx, -⟩ | ⟨ys, e, b, l, hr, hi, hp, hf, hc⟩ |
-    ⟨hr, hg, hp, hf⟩
+    ⟨e, hr, henv, hg, hp, hf⟩
   · refine Or.inl ⟨hr, x :: ys, its'', by simp [hi], by simpa [List.append_assoc] using hv, hl,
       by simp, ?_⟩
     intro n' hn
@@ -136,7 +136,7 @@ theorem SetOut.cons {inp G n xs x its' res}
     have := hc n' hn
     simp only [List.length_append, List.length_cons, List.length_nil] at this ⊢
     omega
-  · exact Or.inr (Or.inr (Or.inr ⟨hr, hg, hp, hf⟩))
+  · exact Or.inr (Or.inr (Or.inr ⟨e, hr, henv, hg, hp, hf⟩))
 
 /-- measure of the loop -/
 def lm (inp : List UInt8) (r : Reader) : Nat :=
@@ -181,7 +181,7 @@ theorem store_shown {inp : List UInt8} {G : Prop} {r : Reader} {x : FqRec} {its'
       unfold Good
       rw [hst2]
       dsimp only
-      exact ⟨hw, hsh.eof, hits⟩
+      exact ⟨hw, hits⟩
   · intro hst
     rcases hsh.rest with ⟨-, hip, -, -, -⟩ | ⟨hst', -⟩
     · exact ⟨hip, by simp only [stepOver]; omega⟩
@@ -337,7 +337,7 @@ theorem setLoop_spec (inp : List UInt8) (G : Prop) (fuel : Nat) (hfuel : inp.len
           simpa only [hst] using hF
         have hv1 := hvx r1 hE
         rcases hF with ⟨hr, x, its', hi, hsh⟩ | ⟨hr, hi, hfin1⟩ | ⟨e, b, l, hr, hi, hfin1⟩ |
-          ⟨hr, hG, hfin1⟩
+          ⟨e, hr, henv, hG, hfin1⟩
         · simp only at hr hi hsh
           subst hr
           have hi' : its = .record x :: its' := by rw [hits]; exact hi
@@ -398,11 +398,11 @@ theorem setLoop_spec (inp : List UInt8) (G : Prop) (fuel : Nat) (hfuel : inp.len
         · simp only at hr hfin1
           subst hr
           have heq : setLoop (f + 1) fuel n isNew r rs =
-              (r1, { rs with positions := [] }, .err .bufferLimit) := by
+              (r1, { rs with positions := [] }, .err e) := by
             rw [setLoop, if_neg hnf]
             simp only [hipv, hx]
           rw [heq]
-          exact Or.inr (Or.inr (Or.inr ⟨rfl, hG, rfl, hfin1⟩))
+          exact Or.inr (Or.inr (Or.inr ⟨e, rfl, henv, hG, rfl, hfin1⟩))
       | none =>
         rcases si_spec r .head hb.pos0_le trivial with
           ⟨bp', ip', hp0, hsc, hres⟩ | ⟨bp', hp0, hf4, hres⟩
@@ -486,14 +486,14 @@ theorem setLoop_spec (inp : List UInt8) (G : Prop) (fuel : Nat) (hfuel : inp.len
               simp only [hipv, hs, hval]
             rw [heq]
             refine Or.inr (Or.inr (Or.inl ⟨[], e, b, l, rfl, by rw [hits]; simpa using hi, rfl,
-              ⟨rfl, hb3.toWin.set_state _, he⟩, ?_⟩))
+              ⟨rfl, hb3.toWin.set_state _⟩, ?_⟩))
             intro n' hn'
             simpa using hn n' hn'
     · -- finished: the loop is left
       rw [setLoop_fin f fuel n isNew r rs hst]
       have hg' := hg
       simp only [Good, hst] at hg'
-      obtain ⟨hw, he, hits⟩ := hg'
+      obtain ⟨hw, hits⟩ := hg'
       subst hits
       refine Or.inl ⟨rfl, [], [], by simp, by simpa using hv, ⟨hg, Or.inr hst⟩,
         by simpa using hfin hst, ?_⟩
@@ -517,7 +517,9 @@ def SetRes (inp : List UInt8) (G : Prop) (n : Option Nat) (rs0 : RecordSet) (its
   (∃ (ys : List FqRec) (e : FqErr) (b l : Nat), res.2.2 = .err (specErr e) ∧
       its = ys.map FqItem.record ++ [.err e b l] ∧ res.2.1.positions = [] ∧ Fin inp G res.1 ∧
       (∀ n', n = some n' → ys.length < n')) ∨
-  (res.2.2 = .err .bufferLimit ∧ ¬ G ∧ res.2.1.positions = [] ∧ Fin inp G res.1)
+  (∃ e, res.2.2 = .err e ∧ EnvErr e ∧ ¬ G ∧ res.2.1.positions = [] ∧ Fin inp G res.1) ∨
+  (¬ G ∧ (res.2.2 = .ok false ∨ ∃ k, res.2.2 = .err (.io k)) ∧ res.2.1 = rs0 ∧
+    ∃ its', Good inp G res.1 its' ∧ (res.1.state = .finished ∨ res.1.state = .new))
 
 /-- the snapshot of the buffer taken when the loop is left normally -/
 def setFin (x : Reader × RecordSet × Res Bool) : Reader × RecordSet × Res Bool :=
@@ -529,7 +531,7 @@ theorem SetOut.res {inp G n rs0 its x} (h : SetOut inp G n [] its x) :
     SetRes inp G n rs0 its (setFin x) := by
   rcases x with ⟨r, rs, res⟩
   rcases h with ⟨hr, ys, its', hi, hv, hl, hne, hc⟩ | ⟨hr, -, hi, hp, hf⟩ |
-    ⟨ys, e, b, l, hr, hi, hp, hf, hc⟩ | ⟨hr, hg, hp, hf⟩
+    ⟨ys, e, b, l, hr, hi, hp, hf, hc⟩ | ⟨e, hr, henv, hg, hp, hf⟩
   · simp only at hr hv hl hc
     subst hr
     refine Or.inl ⟨rfl, ys, its', hi, by simpa [setFin] using hv, ?_, hl, ?_⟩
@@ -544,7 +546,7 @@ theorem SetOut.res {inp G n rs0 its x} (h : SetOut inp G n [] its x) :
       intro n' hn'; simpa using hc n' hn'⟩))
   · simp only at hr hp hf
     subst hr
-    exact Or.inr (Or.inr (Or.inr ⟨rfl, hg, hp, hf⟩))
+    exact Or.inr (Or.inr (Or.inr (Or.inl ⟨e, rfl, henv, hg, hp, hf⟩)))
 
 theorem readSet_loop (fuel : Nat) (r : Reader) (rs : RecordSet) (n : Option Nat)
     (h : r.state = .positioned) :
@@ -586,43 +588,61 @@ theorem readSet_spec (inp : List UInt8) (G : Prop) (fuel : Nat) (r : Reader) (rs
     exact loop_from inp G fuel hfuel n hn r rs its hg hst
   | finished =>
     simp only [Good, hst] at hg
-    obtain ⟨hw, he, hits⟩ := hg
+    obtain ⟨hw, hits⟩ := hg
     have : readRecordSetExact fuel r rs n = (r, rs, .ok false) := by
       simp only [readRecordSetExact, hst]
     rw [this]
-    exact Or.inr (Or.inl ⟨rfl, hits, ⟨hst, hw, he⟩, Or.inl rfl⟩)
+    exact Or.inr (Or.inl ⟨rfl, hits, ⟨hst, hw⟩, Or.inl rfl⟩)
   | new =>
     simp only [Good, hst] at hg
-    obtain ⟨hw, hbuf, hcur, hp0, hbyte, hline, hip, hitems⟩ := hg
-    obtain ⟨br', ext, m, hfill, hbuf', hcap', hcur', hext, hw2, he2, hm⟩ := fill_win inp G r hw
+    obtain ⟨hw, hbufG, hp0, hbyte, hline, hip, hitems⟩ := hg
     rw [hw.inp_eq] at hfuel
-    cases m with
-    | zero =>
-      have hnil : inp = [] := by
-        have := hw.cap3
-        rw [hbuf, hcur, ← hm] at hext
-        simp only [List.length_nil, Nat.sub_zero] at hext
-        have : inp.length = 0 := by omega
-        exact List.eq_nil_of_length_eq_zero this
-      have hi : its = [] := by
-        rw [hitems, hnil]
-        exact WriteProofs.fqGo_end false 0 1
-      have : readRecordSetExact fuel r rs n = ({ r with br := br', state := .finished }, rs, .ok false) := by
+    rcases fill_cases inp G r hw with
+      ⟨br', ext, m, hfill, hbuf', hcap', hcur', hext, hw2, he2, hm⟩ |
+      ⟨br', ext, k, hfill, hbuf', hcap', hcur', hle, hnG, hw2⟩
+    · cases m with
+      | zero =>
+        have hrd : readRecordSetExact fuel r rs n =
+            ({ r with br := br', state := .finished }, rs, .ok false) := by
+          simp only [readRecordSetExact, hst, init, hfill]
+        rw [hrd]
+        by_cases hG : G
+        · have hbuf := hbufG hG
+          have hcur0 : r.br.src.cursor = 0 := by
+            have := hw.byte_pos
+            rw [hbuf, hbyte, hp0] at this
+            simpa using this.symm
+          have hnil : inp = [] := by
+            have := hw.cap3
+            rw [hbuf, hcur0, ← hm] at hext
+            simp only [List.length_nil, Nat.sub_zero] at hext
+            have : inp.length = 0 := by omega
+            exact List.eq_nil_of_length_eq_zero this
+          have hi : its = [] := by
+            rw [hitems, hnil]
+            exact WriteProofs.fqGo_end false 0 1
+          exact Or.inr (Or.inl ⟨rfl, hi, ⟨rfl, hw2.set_state _⟩, Or.inl rfl⟩)
+        · exact Or.inr (Or.inr (Or.inr (Or.inr ⟨hG, Or.inl rfl, rfl, [],
+            good_finished_of (hw2.set_state _) rfl, Or.inl rfl⟩)))
+      | succ m =>
+        have heq : readRecordSetExact fuel r rs n =
+            setFin (setLoop fuel fuel n true { r with br := br', state := .positioned }
+              { rs with positions := [] }) := by
+          rw [← readSet_loop fuel { r with br := br', state := .positioned } rs n rfl]
+          simp only [readRecordSetExact, hst, init, hfill]
+        rw [heq]
+        have hb2 : Base inp G { r with br := br' } := ⟨hw2, by simp [hp0]⟩
+        refine loop_from inp G fuel hfuel n hn _ rs its ?_ rfl
+        refine good_positioned_of (hb2.set_state _) he2 ?_ ?_ rfl
+        · intro ip h; simp only [hip] at h; cases h
+        · rw [hitems]; simp only [hbyte, hline]
+    · have hrd : readRecordSetExact fuel r rs n =
+          ({ r with br := br', state := .new }, rs, .err (.io k)) := by
         simp only [readRecordSetExact, hst, init, hfill]
-      rw [this]
-      exact Or.inr (Or.inl ⟨rfl, hi, ⟨rfl, hw2.set_state _, he2⟩, Or.inl rfl⟩)
-    | succ m =>
-      have heq : readRecordSetExact fuel r rs n =
-          setFin (setLoop fuel fuel n true { r with br := br', state := .positioned }
-            { rs with positions := [] }) := by
-        rw [← readSet_loop fuel { r with br := br', state := .positioned } rs n rfl]
-        simp only [readRecordSetExact, hst, init, hfill]
-      rw [heq]
-      have hb2 : Base inp G { r with br := br' } := ⟨hw2, by simp [hp0]⟩
-      refine loop_from inp G fuel hfuel n hn _ rs its ?_ rfl
-      refine good_positioned_of (hb2.set_state _) he2 ?_ ?_ rfl
-      · intro ip h; simp only [hip] at h; cases h
-      · rw [hitems]; simp only [hbyte, hline]
+      rw [hrd]
+      refine Or.inr (Or.inr (Or.inr (Or.inr ⟨hnG, Or.inr ⟨k, rfl⟩, rfl, its, ?_, Or.inr rfl⟩)))
+      unfold Good
+      exact ⟨hw2.set_state _, fun h => absurd h hnG, hp0, hbyte, hline, hip, hitems⟩
   | parsing =>
     simp only [Good, hst] at hg
     obtain ⟨hb, he, hip, h01, h1l, hitems⟩ := hg
